@@ -988,6 +988,18 @@ def make_text_models():
     def m_string_ne(ex, st, args, callee, ty):
         return b_not(m_string_eq(ex, st, args, callee, ty))
 
+    def m_string_push(ex, st, args, callee, ty):
+        dst = args[0]
+        cur = sstr_of(ex, st, dst)
+        new = SStr(list(cur.chars) + [args[1]])
+        if isinstance(dst, Ref):
+            ex._write(st, dst.depth, dst.local, dst.proj, new)
+        elif isinstance(dst, BoxRef):
+            dst.obj = new
+        else:
+            raise Unsupported("String::push through %r" % (dst,))
+        return UNIT
+
     return [
         (rx(r"^core::str::<impl str>::chars$"), m_chars),
         (rx(r"^<Chars<'_> as Iterator>::count$"), m_count),
@@ -1032,6 +1044,7 @@ def make_text_models():
         (rx(r"^<String as (AsRef<str>|Borrow<str>)>::(as_ref|borrow)$"), m_deref),
         (rx(r"^<&?str as ToString>::to_string$"), m_to_owned),
         (rx(r"^String::new$"), lambda ex, st, args, callee, ty: SStr([])),
+        (rx(r"^String::push$"), m_string_push),
     ]
 
 
